@@ -3,7 +3,7 @@ Tie A (C14): the loop of `varint_from_source` as clang reads it, run against an 
 and then runs dry or answers a negative code, agrees with the model's `sourceLoop`: same verdict, value and octet
 count, the source left exactly behind the octets taken; a failing source's code is handed on.
 -/
-import Ufw.Tie.VarintLoops.Decode
+import Ufw.Tie.VarintLoops.Done
 namespace Ufw.Tie.VarintLoops
 open Ufw.Tie.CPre Ufw.Model.Varint
 
@@ -75,8 +75,6 @@ theorem acc_step' (acc : BitVec 64) (d : BitVec 8) (i : BitVec 64) (hi : i.toNat
   rw [BitVec.toNat_or, BitVec.toNat_shiftLeft, hm, data_bits']
   rfl
 
-theorem zero_toInt : (0#32).toInt = 0 := by decide
-theorem sone64 : (sx 64 (1#32)) = 1#64 := by decide
 theorem neg_enodata : NEG_ENODATA.toInt < (0#32).toInt := by decide
 theorem one_nonneg : ¬ (1#32).toInt < (0#32).toInt := by decide
 
